@@ -8,11 +8,11 @@ PROP = "C15"
 META = {
     "level": "exploration",
     "engine": "threaded",
-    "claim": "Held on the executed runs: with the engine started as in production (sync thread, one event thread per side, notification thread), two user threads applying a generated one-sided or disjoint two-sided history and application threads calling the public surface (busy, change_count, aging, and for SmartCloudSync request / un-request by path and id and the merged listing), under a 1 microsecond switch interval and LINE-level yield injection in cloudsync code, every observed mutation of the sync state (updated, _change_path, _change_oid, mark_changed, finished, split, storage_commit, update, update_entry, forget*, and the smart request/exclude bookkeeping) was made by a thread that owned the state lock at that instant - a deterministic observation made inside the mutating call - and after stop() a fresh engine over the same providers and storage quiesces to the exact expected trees with a consistent index. A quarter of the runs add an application thread that polls 'busy' in a tight loop. (handoff rounds) with one producer thread applying 150 creates/writes to a MockProvider and the engine's two kinds of event consumers on threads of their own - a loop draining provider.events() and a busy-style consumer that takes one event and abandons the generator - under statement-boundary yields, every event index the provider assigned was delivered to at least one consumer and nobody raised.",
+    "claim": "Held on the executed runs: with the engine started as in production (sync thread, one event thread per side, notification thread), two user threads applying a generated one-sided or disjoint two-sided history and application threads calling the public surface (busy, change_count, aging, and for SmartCloudSync request / un-request by path and id and the merged listing), under a 1 microsecond switch interval and LINE-level yield injection in cloudsync code, every observed mutation of the sync state (updated, _change_path, _change_oid, mark_changed, finished, split, storage_commit, update, update_entry, forget*, and the smart request/exclude bookkeeping) was made by a thread that owned the state lock at that instant - a deterministic observation made inside the mutating call - and after stop() a fresh engine over the same providers and storage quiesces to the exact expected trees with a consistent index. A quarter of the runs add an application thread that polls 'busy' in a tight loop. (handoff rounds) with one producer thread applying 150 creates/writes to a MockProvider and the engine's two kinds of event consumers on threads of their own - a loop draining provider.events() and a busy-style consumer that takes one event and abandons the generator - under statement-boundary yields, every event index the provider assigned was delivered to at least one consumer and nobody raised. (atomic steps) the state lock is never given up completely and taken again inside one entry synchronisation or one event application (observed on a stand-in for SyncState.lock, independent of whether another thread used the gap). (walk handoff) with an application thread calling CloudSync.walk() over a slow listing while the engine's threads run, every walk event it queued was processed: all 40 files that only the walk could reveal reached the other side.",
     "note": "Trusted: lock ownership is read with RLock._is_owned() inside wrappers installed on the SyncState / SmartSyncState class attributes. Reach is the interleavings the OS produced in these runs plus the ownership check, which does not depend on the interleaving. Exceptions out of read-only public calls (e.g. a listing iterating a dict that another thread resizes) are counted in the evidence but are not read-modify-writes and not a verdict. Unfiltered mock flavours only (the mock's own listdir/events generators are not thread safe).",
     "technique": "runtime monitoring under real threads: lock-ownership assertion inside every state mutation, yield injection via sys.monitoring, convergence + index oracle after a deterministic post-run quiescence",
-    "plan": {"quick": {"shards": 16, "timeout": 900, "runs": 48, "handoff": 64},
-             "thorough": {"shards": 32, "timeout": 3400, "runs": 1600, "handoff": 1600}},
+    "plan": {"quick": {"shards": 16, "timeout": 900, "runs": 48, "handoff": 64, "walk_handoff": 32},
+             "thorough": {"shards": 32, "timeout": 3400, "runs": 1600, "handoff": 1600, "walk_handoff": 800}},
     "rule": "run = one threaded execution (about 1.3-2 s) of a generated ONE/DISJ history (8-20 ops, no folder renames) on a "
             "flavour of {oo, po, pp, op}; every third run uses SmartCloudSync with a request/un-request thread; distinct = "
             "distinct (case signature, smart flag); non-trivial = state mutations were observed from the sync thread and from an event thread; plus handoff rounds (no-loss check of provider events between producer and the two consumers)",
@@ -41,6 +41,7 @@ def shard(ctx, acc):
         acc.evaluations += 1
         acc.count("runs_smart" if smart else "runs_plain")
         acc.count("monitored_lines", st.get("lines", 0))
+        acc.count("state_lock_acquisitions_watched", st.get("lock_acquisitions_watched", 0))
         acc.count("yields_injected", st.get("yields", 0))
         acc.count("exceptions_from_read_only_public_calls", st.get("exceptions_from_public_calls", 0))
         for k in st.get("exception_kinds", ()):
@@ -62,6 +63,9 @@ def shard(ctx, acc):
             acc.violation(r["problems"][0][0], r["problems"][:3] + [("log", st.get("log_about_first_bad_path"), st.get("rejected_ops"))],
                           dict(case, smart=smart))
     _handoff(ctx, acc)
+    if ctx.shard == 0:
+        from vlib import probes as P
+        P.run_fixed_demos(PROP, acc)
 
 
 def _handoff(ctx, acc):
@@ -77,6 +81,14 @@ def _handoff(ctx, acc):
         acc.sigs.add("handoff:%d" % j)
         if probs:
             acc.violation(probs[0][0], probs[:3], {"family": "HANDOFF", "j": j})
+    for j in range(ctx.shard, plan.get("walk_handoff", 0), ctx.nshards):
+        probs, st = T.walk_handoff_round("%s:walkhandoff:%d" % (ctx.seed, j))
+        acc.evaluations += 1
+        acc.count("walk_handoff_rounds")
+        acc.count("walk_events_queued_by_application_thread", st["files"])
+        acc.sigs.add("walkhandoff:%d" % j)
+        if probs:
+            acc.violation(probs[0][0], probs[:3], {"family": "WALKHANDOFF", "j": j})
 
 
 def conclusive(acc, tier):
